@@ -714,3 +714,38 @@ def r04_17_single_transition_zone_boundary(ctx: Ctx) -> RuleResult:
     else:
         rr.fail(f.qual, f"`{unparse(bad)}` puts the transition instant itself into the early interval, whose end (exclusive) it is: the interval returned for that instant does not contain it", ctx.loc(f, bad))
     return rr
+
+
+@rule("C04")
+def r04_18_transitions_pair_crosswise_and_may_be_at_the_end_of_time(ctx: Ctx) -> RuleResult:
+    """`__next_transition` returns (transition, recurrence the transition goes FROM): the next start of standard time ends a
+    stretch of the daylight rule and the reverse, so every returned pair is crosswise - (standard_transition, dst recurrence) or
+    (dst_transition, standard recurrence).  And a transition may lie at the end of time (the recurrences return such transitions
+    for the last year): the _Transition record accepts any instant, it has no argument check."""
+    rr = RuleResult("R04.18", "standard/daylight alternating map: every returned (transition, recurrence) pair is crosswise; _Transition accepts the end-of-time instants (no argument check)", min_instances=4)
+    M = ctx.M
+    c = M.cls("_StandardDaylightAlternatingMap")
+    for f in sorted(c.all_defs, key=lambda g: g.qual):
+        if isinstance(f.node, ast.Lambda):
+            continue
+        for n in own_nodes(f.node):
+            if isinstance(n, ast.Return) and isinstance(n.value, ast.Tuple) and len(n.value.elts) == 2 and "recurrence" in unparse(n.value.elts[1]) and isinstance(n.value.elts[0], ast.Name):
+                rr.inst()
+                tr, rc = n.value.elts[0].id, unparse(n.value.elts[1])
+                k_tr = "dst" if "dst" in tr else "standard" if "standard" in tr else None
+                k_rc = "dst" if "dst" in rc else "standard" if "standard" in rc else None
+                if k_tr is None or k_rc is None:
+                    rr.undecided.append(f"{f.qual}: pair `{unparse(n.value)}` not classified")
+                    rr.ok()
+                elif k_tr != k_rc:
+                    rr.ok({"pair": unparse(n.value)[:70]})
+                else:
+                    rr.fail(f.qual, f"`return {unparse(n.value)[:80]}` pairs the next {k_tr} transition with the {k_rc} rule as the rule in force: the interval before a transition INTO {k_tr} time belongs to the other rule (Sydney's last summer would be reported with the standard offset)", ctx.loc(f, n))
+    t = M.func("_Transition._ctor", required=True)
+    rr.inst()
+    chk = [n for n in own_nodes(t.node) if isinstance(n, ast.Raise) or (isinstance(n, ast.Call) and "_Preconditions" in unparse(n.func))]
+    if chk:
+        rr.fail(t.qual, f"`{unparse(chk[0])[:80]}`: the yearly recurrences return transitions at the end of time (before-min / after-max sentinels) for the first and last year, so a check here makes every rule-based zone raise in year 9999", ctx.loc(t, chk[0]))
+    else:
+        rr.ok({"record": t.qual})
+    return rr
